@@ -1046,7 +1046,7 @@ theorem rawop_ok [DropIm α] {op : OpSpec α} {a s : Sig α} {r : Raw α} (h : r
 /-! ### static prediction of class, polarisation count and length -/
 
 section
-variable [Add α] [Sub α] [Neg α] [Mul α] [DropIm α]
+variable [Add α] [Sub α] [Neg α] [Mul α] [DropIm α] [Xform α]
 
 /-- polarisation count of the object a non-object operand is converted to -/
 def convPol (c : Cls) (r : Raw α) : Nat :=
@@ -1066,7 +1066,7 @@ def sCls (ρ : Env α) : Expr α → Cls
   | .mkO _ _ _ _ => .O
   | .add a _ | .sub a _ | .mul a _ => sCls ρ a
   | .addR a _ | .raddR a _ | .subR a _ | .rsubR a _ | .mulR a _ | .rmulR a _ => sCls ρ a
-  | .idx a _ | .slice a _ _ _ | .copy a _ => sCls ρ a
+  | .idx a _ | .slice a _ _ _ | .copy a _ | .transform a _ _ => sCls ρ a
 
 def sPol (ρ : Env α) : Expr α → Nat
   | .var i => match ρ[i]? with | some s => s.npol | none => 0
@@ -1075,7 +1075,7 @@ def sPol (ρ : Env α) : Expr α → Nat
   | .add a b | .sub a b | .mul a b => Nat.max (sPol ρ a) (sPol ρ b)
   | .addR a r | .raddR a r | .subR a r | .rsubR a r | .mulR a r | .rmulR a r =>
     Nat.max (sPol ρ a) (convPol (sCls ρ a) r)
-  | .idx a _ | .slice a _ _ _ | .copy a _ => sPol ρ a
+  | .idx a _ | .slice a _ _ _ | .copy a _ | .transform a _ _ => sPol ρ a
 
 def sLen (ρ : Env α) : Expr α → Nat
   | .var i => match ρ[i]? with | some s => s.len | none => 0
@@ -1086,6 +1086,7 @@ def sLen (ρ : Env α) : Expr α → Nat
   | .idx _ _ => 1
   | .slice a st sp step => sliceLen st sp step (sLen ρ a)
   | .copy a n => sliceLen none (some (n.getD (sLen ρ a))) none (sLen ρ a)
+  | .transform a _ _ => sLen ρ a
 
 end
 
@@ -1268,16 +1269,84 @@ theorem mulSpec_std : (mulSpec : OpSpec α).Std :=
 
 end
 
+/-! ### domain transform -/
+
+/-- the only fact about the per-row transform the container theorems need: it keeps the row length.
+    For `Cx ℝ` this is C02's `shift_length` (instance in Lemmas/ContainerAlg.lean). -/
+class LawfulXform (α : Type) [Xform α] : Prop where
+  length_row : ∀ (d : Fourier.Dom) (sh : Bool) (xs : List α), (Xform.row d sh xs).length = xs.length
+
+theorem Rows.mapL_len_of {f : List α → List α} (hf : ∀ xs, (f xs).length = xs.length) (r : Rows α) :
+    (r.mapL f).len = r.len := by
+  cases r <;> simp [Rows.mapL, Rows.len, hf]
+
+theorem Rows.mapL_valid_of {f : List α → List α} (hf : ∀ xs, (f xs).length = xs.length) (r : Rows α) :
+    (r.mapL f).Valid ↔ r.Valid := by
+  cases r <;> simp [Rows.mapL, Rows.Valid, hf]
+
+/-- `x(domain, shift)` is the shape test `build` on the transformed rows, dtype complex -/
+theorem transform_eq [DropIm α] [Xform α] (a : Sig α) (d : Fourier.Dom) (sh : Bool) :
+    transform a (some d) sh =
+      build a.cls .complex (a.sig.mapL (Xform.row d sh)) (a.noise.map (Rows.mapL (Xform.row d sh))) := by
+  unfold transform
+  have := construct_arr_none a.cls .complex (a.sig.mapL (Xform.row d sh))
+    (a.noise.map (Rows.mapL (Xform.row d sh)))
+  rw [Option.map_map] at this
+  exact this
+
+/-- whatever the per-row transform does, a transform that returns went through the constructor: well formed,
+    same class, complex dtype, rows = transformed rows -/
+theorem transform_wf_any [DropIm α] [Xform α] {a s : Sig α} {d : Option Fourier.Dom} {sh : Bool}
+    (h : transform a d sh = .ok s) :
+    WF s ∧ ∃ d', d = some d' ∧
+      s = ⟨a.cls, a.sig.count, .complex, a.sig.mapL (Xform.row d' sh), a.noise.map (Rows.mapL (Xform.row d' sh))⟩ := by
+  cases d with
+  | none => simp [transform] at h
+  | some d' =>
+    rw [transform_eq] at h
+    refine ⟨build_wf h, d', rfl, ?_⟩
+    simpa using (build_ok h).1
+
+theorem transform_error [DropIm α] [Xform α] {a : Sig α} {d : Option Fourier.Dom} {sh : Bool} {e : Err}
+    (h : transform a d sh = .error e) : e = .ValueError := by
+  cases d with
+  | none => simp [transform] at h; exact h.symm
+  | some d' => rw [transform_eq] at h; exact build_error h
+
+/-- with a length-preserving row transform, a well-formed object is always accepted ('w', 'f', 't') and the result
+    has the same class, number of rows, length and noise presence -/
+theorem transform_spec [DropIm α] [Xform α] [LawfulXform α] {a : Sig α} (ha : WF a) (d : Fourier.Dom) (sh : Bool) :
+    ∃ s, transform a (some d) sh = .ok s ∧ WF s ∧ s.cls = a.cls ∧ s.npol = a.npol ∧ s.sig.count = a.sig.count ∧
+      s.len = a.len ∧ s.noise.isSome = a.noise.isSome ∧ s.dt = .complex := by
+  have hf : ∀ xs : List α, (Xform.row d sh xs).length = xs.length := LawfulXform.length_row d sh
+  have hok : transform a (some d) sh = .ok ⟨a.cls, (a.sig.mapL (Xform.row d sh)).count, .complex,
+      a.sig.mapL (Xform.row d sh), a.noise.map (Rows.mapL (Xform.row d sh))⟩ := by
+    rw [transform_eq]
+    refine build_of ((Rows.mapL_valid_of hf _).2 ha.valid) (by simpa using ha.elec_one) ?_
+    intro n hn
+    cases hnz : a.noise with
+    | none => simp [hnz] at hn
+    | some nz =>
+      simp [hnz] at hn; subst hn
+      obtain ⟨v, c, l⟩ := ha.noise_shape nz hnz
+      exact ⟨(Rows.mapL_valid_of hf _).2 v, by simpa using c, by rw [Rows.mapL_len_of hf, Rows.mapL_len_of hf, l]⟩
+  refine ⟨_, hok, ?_, rfl, ?_, ?_, ?_, ?_, rfl⟩
+  · rw [transform_eq] at hok; exact build_wf hok
+  · simp [ha.npol_rows]
+  · simp
+  · exact Rows.mapL_len_of hf _
+  · cases a.noise <;> rfl
+
 /-! ### sequencing in `eval`, shapes of operator results -/
 
-theorem bind1_ok [Add α] [Sub α] [Neg α] [Mul α] [DropIm α] {x : Except Err (Sig α)}
+theorem bind1_ok {x : Except Err (Sig α)}
     {f : Sig α → Except Err (Sig α)} {s : Sig α} (h : bind1 x f = .ok s) : ∃ a, x = .ok a ∧ f a = .ok s := by
   unfold bind1 at h
   cases x with
   | error e => cases h
   | ok a => exact ⟨a, rfl, h⟩
 
-theorem bind2_ok [Add α] [Sub α] [Neg α] [Mul α] [DropIm α] {x y : Except Err (Sig α)}
+theorem bind2_ok {x y : Except Err (Sig α)}
     {f : Sig α → Sig α → Except Err (Sig α)} {s : Sig α} (h : bind2 x y f = .ok s) :
     ∃ a b, x = .ok a ∧ y = .ok b ∧ f a b = .ok s := by
   unfold bind2 at h
